@@ -1125,7 +1125,7 @@ impl LunarHour {
     let solar: SolarDay = self.day.get_solar_day();
     let dong_zhi: SolarTerm = SolarTerm::from_index(solar.get_year(), 0);
     let xia_zhi: SolarTerm = dong_zhi.next(12);
-    let asc: bool = !solar.is_before(dong_zhi.get_julian_day().get_solar_day()) && solar.is_before(xia_zhi.get_julian_day().get_solar_day());
+    let asc: bool = (!solar.is_before(dong_zhi.get_julian_day().get_solar_day()) && solar.is_before(xia_zhi.get_julian_day().get_solar_day())) || !solar.is_before(dong_zhi.next(24).get_julian_day().get_solar_day());
     let mut start: isize = [8, 5, 2][self.day.get_sixty_cycle().get_earth_branch().get_index() % 3];
     if asc {
       start = 8 - start;
